@@ -98,6 +98,17 @@ func handshake(cfg *oidcv1.OIDCConfig, pool internal.TLSConfigPool, addr string)
 	return true
 }
 
+// get performs one HTTPS request with a given (long-lived) client, on a fresh connection
+func get(cl *http.Client, addr string) bool {
+	defer cl.CloseIdleConnections()
+	resp, err := cl.Get("https://" + addr + "/")
+	if err != nil {
+		return false
+	}
+	_ = resp.Body.Close()
+	return true
+}
+
 func skipValue(s string) *structpb.Value {
 	switch s {
 	case "true":
@@ -115,6 +126,9 @@ func skipValue(s string) *structpb.Value {
 type loadedCfg struct {
 	cfg *oidcv1.OIDCConfig
 	ptr string
+	// a client built when the configuration was loaded and kept (as the JWKS fetcher keeps its client): it must follow
+	// a CA rotation as well
+	kept *http.Client
 }
 
 func runTLSScenario(rec *recorder, id string, events []tlsEvent, cas map[string]*testCA, dir string) error {
@@ -134,7 +148,9 @@ func runTLSScenario(rec *recorder, id string, events []tlsEvent, cas map[string]
 	observe := func() []any {
 		out := []any{}
 		for _, lc := range loaded {
-			out = append(out, map[string]any{"ca1": handshake(lc.cfg, pool, cas["ca1"].addr), "ca2": handshake(lc.cfg, pool, cas["ca2"].addr), "ptr": lc.ptr})
+			o := map[string]any{"ca1": handshake(lc.cfg, pool, cas["ca1"].addr), "ca2": handshake(lc.cfg, pool, cas["ca2"].addr), "ptr": lc.ptr}
+			o["ca1Kept"], o["ca2Kept"] = get(lc.kept, cas["ca1"].addr), get(lc.kept, cas["ca2"].addr)
+			out = append(out, o)
 		}
 		return out
 	}
@@ -167,7 +183,12 @@ func runTLSScenario(rec *recorder, id string, events []tlsEvent, cas map[string]
 					p = "nil"
 				}
 			}
-			loaded = append(loaded, loadedCfg{cfg: c, ptr: p})
+			kept, kerr := inthttp.NewHTTPClient(c, pool, nil)
+			if kerr != nil {
+				return fmt.Errorf("%s: NewHTTPClient: %w", id, kerr)
+			}
+			kept.Timeout = 15 * time.Second
+			loaded = append(loaded, loadedCfg{cfg: c, ptr: p, kept: kept})
 			if e.CA == "file" && e.Interval > 0 {
 				refreshing = true
 			}
